@@ -428,3 +428,26 @@ def shim_consonance():
         def randint(self, a, b):
             return _r.randint(int(a), int(b))
     h.random = _R()
+
+
+def drain_detached(execute=False):
+    """Take what is pending in the stack's deferred-callback queue (a class-level attribute, shared by all stacks of the process), oldest
+    first, whatever container holds it; optionally run the callbacks.  Used to start a case from an empty queue / to play the stack loop."""
+    import yowsup.stacks.yowstack as ys
+    q = getattr(ys.YowStack, "_YowStack__detachedQueue", None)
+    items = []
+    if q is None:
+        return items
+    if hasattr(q, "qsize") and hasattr(q, "get"):
+        while q.qsize():
+            items.append(q.get(False))
+    else:
+        try:
+            while True:
+                items.append(q.popleft() if hasattr(q, "popleft") else q.pop(0))
+        except IndexError:
+            pass
+    if execute:
+        for f in items:
+            f()
+    return items
